@@ -89,7 +89,8 @@ func TestVerif_C10_exec(t *testing.T) {
 	savedLocal := time.Local
 	defer func() { time.Local = savedLocal }()
 	base := time.Date(2024, 11, 5, 12, 0, 0, 0, time.UTC)
-	classes := []string{"plain", "plain", "plain", "f17a-executed-disagree", "f17b-two-msgs-one-seq", "f17c-two-nonces", "f25-utc-spelling", "equal-timestamps"}
+	classes := []string{"plain", "plain", "plain", "f17a-executed-disagree", "f17b-two-msgs-one-seq", "f17c-two-nonces", "f25-utc-spelling", "equal-timestamps",
+		"conflict-root", "conflict-end", "conflict-three"}
 	for i := 0; i < n; i++ {
 		cls := classes[i%len(classes)]
 		N := vPick(r, []int{4, 7})
@@ -128,7 +129,7 @@ func TestVerif_C10_exec(t *testing.T) {
 		}
 		state := vPick(r, []exectypes.PluginState{exectypes.GetCommitReports, exectypes.GetMessages, exectypes.Filter})
 		switch cls {
-		case "f17a-executed-disagree", "f25-utc-spelling", "equal-timestamps":
+		case "f17a-executed-disagree", "f25-utc-spelling", "equal-timestamps", "conflict-root", "conflict-end", "conflict-three":
 			state = exectypes.GetCommitReports
 		case "f17b-two-msgs-one-seq":
 			state = exectypes.GetMessages
@@ -147,6 +148,25 @@ func TestVerif_C10_exec(t *testing.T) {
 						cd := rp.cd
 						if cls == "f17a-executed-disagree" && o%2 == 1 {
 							cd.ExecutedMessages = []cciptypes.SeqNum{cd.SequenceNumberRange.Start()}
+						}
+						// conflicting but individually valid views: the same chain, timestamp and range start, another root
+						// or range end, each view held by at least f+1 oracles (fChain = 1 everywhere)
+						variant := 0
+						switch cls {
+						case "conflict-root", "conflict-end":
+							variant = o % 2
+						case "conflict-three":
+							if N >= 6 {
+								variant = o % 3
+							} else {
+								variant = o % 2
+							}
+						}
+						if variant > 0 {
+							if cls == "conflict-end" {
+								cd.SequenceNumberRange = cciptypes.NewSeqNumRange(cd.SequenceNumberRange.Start(), cd.SequenceNumberRange.End()+cciptypes.SeqNum(variant))
+							}
+							cd.MerkleRoot[0] ^= byte(0xa0 + variant)
 						}
 						obs[o].CommitReports[ch] = append(obs[o].CommitReports[ch], cd)
 					}
